@@ -161,8 +161,8 @@ class SrtContext:
 
     LOGGER.debug(
       "Append ISD from %ss to %ss to SRT content.",
-      float(begin),
-      float(end) if end is not None else "unbounded"
+      begin,
+      end if end is not None else "unbounded"
     )
 
     if end is not None and ClockTime.from_seconds(end) == ClockTime.from_seconds(begin):
